@@ -353,6 +353,23 @@ ORACLE_WHAT = {
 }
 
 
+def spaced_spellings(cases, sep=b" "):
+    """the same sentences with [sep] between every two tokens (token texts taken from the real lexer): a production that looks at raw
+    bytes instead of tokens (adjacency of '.' and '*', of a sign and a digit ...) accepts one spelling and rejects the other"""
+    uniq = sorted(set(cases))
+    toks = vlib.run_lines(vlib.HARNESS, ["expr-toks"], "\n".join(hexs(x) for (_, x) in uniq) + "\n")
+    out = []
+    for (e, x), l in zip(uniq, toks):
+        body = l.split(" => ", 1)[1]
+        if body == "LEXERR":
+            continue
+        raws = [unhex(t.split(",")[1]) for t in body.split(";") if t and t.split(",")[1] != "-"]
+        y = sep.join(raws)
+        if y != x:
+            out.append((e, y))
+    return out
+
+
 def fit_entries(s):
     """the entry points a sentence is meant for (C08 is about acceptance: a DDL sentence is not fed to ParseExpr)"""
     w = s.lstrip().split(None, 1)[0].upper() if s.strip() else b""
@@ -423,6 +440,8 @@ def sampled(res, st, std_coq, extra_vo=()):
         cases = list_cases(rnd, q)
     elif pid == "C08":
         cases = gens.parser_cases(rnd, 0, 0, 0, valid_only=True) + gens.sentence_cases(rnd, 6000 if q else 120000)
+        sysc = gens.systematic_cases()
+        cases += spaced_spellings(sysc + cases[:1500 if q else 30000]) + spaced_spellings(sysc[::3], b"/**/")
     else:
         cases = valid_cases(rnd, q, 4000 if q else 80000)
     if pid != "C08" and pid != "C11":
@@ -503,6 +522,7 @@ def list_cases(rnd, q):
         for st in rich_dml:
             out.append(("ParseDMLs", b";\n".join([st] * n) + b";"))
     out += gens.truncated_piece_lists()
+    out += gens.semicolon_insertions()
     return out
 
 
